@@ -67,7 +67,9 @@ def run_case(case, acc, order):
     bad = []
     with core.Scratch() as d:
         tr = dsgen.make_dataset(d / 'ds', spec)
-        m = load_model(tr['params_path'])
+        m0 = load_model(tr['params_path'])
+        m0.close()
+        m = load_model(tr['params_path'])     # second open: reads what the first one cached on disk
         try:
             acc.state()
             s = tr['spec']
